@@ -472,6 +472,7 @@ type Contract struct {
 	Requires  []Clause
 	Ensures   []Clause
 	Rely []Clause
+	Uses []Clause // function-level `use e`: instances of axioms/lemmas assumed at entry (hints for paths that meet no loop)
 	Decr []Clause // `decreases e`: measure of a (directly) recursive function, strictly smaller and bounded below at every recursive call
 	LockInv []Clause // invariant of the state protected by the object's lock (`opt lock`)
 	GhostSets []GhostSet // ghost assignments performed at the function's exit (before its ensures are checked)
@@ -576,7 +577,7 @@ func NewContractSet() *ContractSet {
 }
 
 var clauseKeywords = map[string]bool{
-	"func": true, "requires": true, "ensures": true, "exit_ensures": true, "rely": true, "lockinv": true, "ghostset": true, "panics_iff": true, "decreases": true, "on_panic": true,
+	"func": true, "requires": true, "ensures": true, "exit_ensures": true, "rely": true, "lockinv": true, "ghostset": true, "panics_iff": true, "decreases": true, "use": true, "on_panic": true,
 	"assigns": true, "loop": true, "inline": true, "trusted": true, "classes": true, "pure": true,
 	"property": true, "spec": true, "axiom": true, "lemma": true, "type": true, "let": true, "mode": true,
 	"opt": true, "ghost": true, "callback": true, "pair": true, "ghostvar": true, "rangecall": true, "implements": true, "bounded": true, "adt": true, "owned": true, "owns": true, "gives": true,
@@ -620,7 +621,53 @@ func LoadContracts(root string) (*ContractSet, error) {
 		c.ThisAlias = true
 		c.ImplAlias = ic.ParamNames
 	}
+	// `use` clauses are assumed without proof: they may only instantiate axioms and lemmas (possibly under a
+	// universal quantifier, possibly guarded or conjoined) - never state a fact of their own.
+	for _, k := range cs.Order {
+		c := cs.Funcs[k]
+		var all []Clause
+		all = append(all, c.Uses...)
+		for _, ls := range c.Loops {
+			all = append(all, ls.Hints...)
+		}
+		for _, ls := range c.RangeCalls {
+			all = append(all, ls.Hints...)
+		}
+		for _, u := range all {
+			if !cs.hintOK(u.E) {
+				return nil, fmt.Errorf("%s: `use %s` is not an instantiation of an axiom or lemma", k, u.Src)
+			}
+		}
+	}
 	return cs, nil
+}
+
+func (cs *ContractSet) hintOK(e *Expr) bool {
+	if e == nil {
+		return false
+	}
+	switch e.Op {
+	case "call":
+		if _, ok := cs.Axioms[e.Name]; ok {
+			return true
+		}
+		for _, l := range cs.Lemmas {
+			if l.Name == e.Name {
+				return true
+			}
+		}
+		return false
+	case "forall":
+		return len(e.Args) > 0 && cs.hintOK(e.Args[len(e.Args)-1])
+	case "binary":
+		switch e.Name {
+		case "&&":
+			return cs.hintOK(e.Args[0]) && cs.hintOK(e.Args[1])
+		case "==>":
+			return cs.hintOK(e.Args[1]) // a guarded instance is weaker than the instance
+		}
+	}
+	return false
 }
 
 func (cs *ContractSet) parseFile(path string) error {
@@ -813,6 +860,15 @@ func (cs *ContractSet) parseFile(path string) error {
 			case "on_panic":
 				cur.OnPanic = append(cur.OnPanic, c)
 			}
+		case "use":
+			if cur == nil {
+				return fail("use outside func")
+			}
+			e, err := parse(rest)
+			if err != nil {
+				return err
+			}
+			cur.Uses = append(cur.Uses, Clause{Label: label, E: e, Src: rest})
 		case "decreases":
 			if cur == nil {
 				return fail("decreases outside func")
